@@ -324,7 +324,7 @@ func GenSegDesc(r *gen.Rand, allowForeign bool) SegDesc {
 func GenSig(r *gen.Rand, allowForeign bool) Sig {
 	var s Sig
 	s.TableID = 0xfc
-	s.Ptr = r.PickInt([]int{0, 0, 0, 1, 5, 30})
+	s.Ptr = r.PickInt([]int{0, 0, 0, 0, 1, 5, 30, 182, 183, 254, 255})
 	s.PTSAdj = r.U33()
 	if r.Chance(3) {
 		s.PTSAdj = 0
